@@ -30,6 +30,8 @@ type rejectRow struct {
 
 var symNumRE = regexp.MustCompile(`(new|loop:[A-Za-z_0-9.]+|after:[A-Za-z_0-9.]+|loopfield:[^ )#]+|hyp)#\d+`)
 
+var elemLenRE = regexp.MustCompile(`Len\((ONEOF|\?:[A-Za-z0-9_.]+)\)`)
+
 func normRejectAtom(a string) string {
 	a = symNumRE.ReplaceAllStringFunc(a, func(m string) string { return m[:strings.Index(m, "#")+1] })
 	// one-of lists of local objects differ in numbering only
@@ -60,7 +62,7 @@ func normRejectAtom(a string) string {
 			a = a[:i] + a[i+j:]
 		}
 	}
-	return a
+	return elemLenRE.ReplaceAllString(a, "Len(ELEM)")
 }
 
 func splitTopAnd(g string) []string {
